@@ -98,8 +98,10 @@ DIMENSIONS = {
             "add_lanelet": (V, "new / known id, rtree True / False; a non-lanelet argument (assertion, probe failed-add)"),
             "remove_lanelet": (V, "known / unknown id, rtree True / False"),
             "add_lanelets_from_network": (V, "0..2 lanelets of another network"),
-            "create_from_lanelet_list": (V, "routes list / list-nocleanup (cleanup_ids), XML reader"),
-            "create_from_lanelet_network": (V, "op cut: no shape / exclude_lanelet_types / cleanup_ids; with a shape: observation"),
+            "create_from_lanelet_list": (V, "routes list / list-nocleanup (cleanup_ids), XML reader; twin cases: of the lanelets of a live "
+                                             "network that stays in use (fork from-list)"),
+            "create_from_lanelet_network": (V, "op cut: no shape / exclude_lanelet_types / cleanup_ids; with a shape: observation; twin cases: "
+                                                "the source stays in use next to the result (fork cut)"),
             "translate_rotate": (V, "op move: exact translation (angle 0) of the whole network, then queries; rotations: C05 / C11"),
             "find_lanelet_by_position": (O, "10..30 points per case: numpy arrays / python lists / integer arrays; empty list; single point"),
             "find_lanelet_by_shape": (O, "4..10 shapes per case, every kind; the same shape object twice; default / integer arguments"),
